@@ -40,7 +40,8 @@ RULE = ("Hypothesis draws a data set of DISTINCT points (as C01: lattice sites, 
         "it contains at least one accepted and one rejected proposal (accept = the center index of that cluster "
         "changed in that sweep); for reproducibility clauses when at least one proposal was accepted; distinct = "
         "distinct canonical JSON. Classes report accept/reject counts and, for explicit proposals, which PAM "
-        "re-assignment branches accepted proposals exercised (brute-force replay).")
+        "re-assignment branches accepted proposals exercised (brute-force replay). Thorough additionally enumerates every "
+        "1-D integer set of 4..5 points out of {0..6} x ordered start-center pairs x proposal pairs through 3 sweeps.")
 ASSUMPTIONS = [
     "points are pairwise distinct (by construction)",
     "n_iters >= 1 for stand-alone k-medoids; cold k-medoids only with k small enough that k random frames are distinct "
@@ -564,6 +565,31 @@ def run_warm_state_guarantees(case):
 
 # --------------------------------------------------------------------------
 
+def exhaustive_small(tier, shard, nshards):
+    """Every 1-D integer set of 4..5 points out of {0..6} x every ordered pair of start centers x every pair of
+    proposals, followed through 3 sweeps (all accept/reject sequences that can occur on these tie-rich sets)."""
+    if tier != "thorough":
+        return None
+
+    def gen():
+        import itertools
+        idx = 0
+        for size in (4, 5):
+            for pts in itertools.combinations(range(7), size):
+                for ctrs in itertools.permutations(range(size), 2):
+                    for props in itertools.product(range(size), repeat=2):
+                        idx += 1
+                        if idx % nshards != shard:
+                            continue
+                        yield {"data": {"sites": [[p] for p in pts], "step": 1, "jitter": None, "dtype": "int64",
+                                        "layout": "C", "kind": "uniform"},
+                               "metric": rc.METRICS[idx % 3], "entry": "kmedoids", "start": "inds",
+                               "drive": "proposals", "k": 2, "sweeps": 3, "seed": 0, "g1": 1, "g2": 2,
+                               "centers": list(ctrs), "proposals": list(props), "container": "list",
+                               "state_src": "ref", "chain": [1, 1]}
+    return gen()
+
+
 _KM = medoid_case()
 _KM_WARM = medoid_case(starts=("inds", "state", "all"))
 _KM_ALL_ENTRIES = medoid_case(entries=("kmedoids", "KMedoids.fit", "kmedoids"))
@@ -585,23 +611,24 @@ def seed_case(draw, **kw):
 
 
 CLAUSES = [
-    Clause("sweep_cost_public", _KM_ALL_ENTRIES, run_sweep_cost_public, quick=800, thorough=9000,
+    Clause("sweep_cost_public", _KM_ALL_ENTRIES, run_sweep_cost_public, quick=1100, thorough=9000,
+           exhaustive=exhaustive_small,
            doc="every stand-alone sweep leaves the mean squared distance no larger (history via n_iters=1..s)"),
-    Clause("sweep_cost_iterations", _KM_WARM, run_sweep_cost_iterations, quick=600, thorough=8000,
+    Clause("sweep_cost_iterations", _KM_WARM, run_sweep_cost_iterations, quick=800, thorough=8000,
            doc="sweep s+1 of _kmedoids_iterations from identical state (as hybrid calls it) does not raise the cost"),
-    Clause("cluster_count_kept", any_entry_case(), run_cluster_count_kept, quick=600, thorough=8000,
+    Clause("cluster_count_kept", any_entry_case(), run_cluster_count_kept, quick=800, thorough=8000,
            doc="every sweep keeps the number of clusters"),
-    Clause("centers_stay_frames", any_entry_case(), run_centers_stay_frames, quick=600, thorough=8000,
+    Clause("centers_stay_frames", any_entry_case(), run_centers_stay_frames, quick=800, thorough=8000,
            doc="every center stays an actual frame of the input"),
-    Clause("hybrid_not_worse", _HY, run_hybrid_not_worse, quick=500, thorough=7000,
+    Clause("hybrid_not_worse", _HY, run_hybrid_not_worse, quick=700, thorough=7000,
            doc="k-hybrid is never worse in cost than the k-centers solution it starts from"),
-    Clause("reproducible_seed", seed_case(), run_reproducible_seed, quick=500, thorough=7000,
+    Clause("reproducible_seed", seed_case(), run_reproducible_seed, quick=700, thorough=7000,
            doc="with a fixed random seed the outcome is reproducible"),
     Clause("reproducible_proposals", medoid_case(starts=("inds", "state", "all"), drives=("proposals",)),
-           run_reproducible_proposals, quick=400, thorough=6000,
+           run_reproducible_proposals, quick=550, thorough=6000,
            doc="with explicitly supplied proposals the outcome is reproducible"),
     Clause("warm_state_guarantees", medoid_case(starts=("all",), entries=("kmedoids", "KMedoids.fit", "kmedoids")),
-           run_warm_state_guarantees, quick=400, thorough=6000,
+           run_warm_state_guarantees, quick=550, thorough=6000,
            doc="starting from a supplied consistent state (centers, labels, distances) preserves the guarantees"),
     Clause("sweep_cost_large", medoid_case(max_n=200, max_d=8, min_n=30), run_sweep_cost_public, quick=0,
            thorough=1200, doc="cost history on 30..200 frames"),
